@@ -302,3 +302,11 @@ func (m *vMachine) c13Finish() {
 	}
 	m.r.ClassN("locker-ops-paying-savings", m.lockerPaid)
 }
+
+// lockerWeight: how many of ten operations are locker operations in worlds that have lockers.
+func lockerWeight(prop string) int {
+	if prop == "C13" {
+		return 6
+	}
+	return 3
+}
